@@ -272,7 +272,7 @@ func (c *c04Case) Oracle() (bool, string) {
 }
 
 func (c *c04Case) Sx() string {
-	if c.Fatal != "" || c.Direct {
+	if c.Fatal != "" || c.Direct || len(c.File) > 100<<10 { // multi-megabyte files are judged by the oracle only
 		return ""
 	}
 	var prog, offs, ctab, seq, at, mixed, seeks, rp []string
